@@ -72,183 +72,212 @@ pub fn oracle(case: &Case, st: &mut Stats) -> Verdict {
             &pool[pick(q.sel, pool.len())]
         };
         let qname = flip_case(name, q.mask);
-        let mut b = Builder::new(qi as u16, 0x0100);
-        b.question(&qname, q.qtype, *class);
-        if let Some(size) = q.edns {
-            b.rr(3, &MName::root(), mr::T_OPT, size, 0, &[]);
-        }
-        let req = b.buf;
-        let limit: usize = match q.edns {
-            None => 512,
-            Some(size) => size.clamp(512, payload) as usize,
-        };
-        let what = format!("query {qname} type {} class {class} ({}; server payload size {payload}; UDP limit {limit})", q.qtype, match q.edns {
-            None => "no EDNS".to_string(),
-            Some(s) => format!("EDNS advertising {s}"),
-        });
-        let run = |tcp: bool, buf: &mut Vec<u8>| -> Result<Vec<u8>, Fail> {
-            match server.handle(&req, tcp, localhost(), buf) {
-                Ok(Some(n)) => Ok(buf[..n].to_vec()),
-                Ok(None) => Err(Fail::new("no-response", format!("{what}: no response over {}", if tcp { "TCP" } else { "UDP" }))),
-                Err(p) => Err(Fail::new(panic_signature(&p), format!("{what}: handle_message panicked: {p}"))),
+        // the generated EDNS setting first, then limits placed exactly around the size of the complete
+        // response (S - 1, S and S + number of records, for every third query): "fits" is decided to the octet
+        let mut variants: Vec<Option<u16>> = vec![q.edns];
+        let mut vi = 0;
+        // over TCP the advertised size does not matter: one complete response serves all variants with OPT
+        let mut t_with_opt: Option<Vec<u8>> = None;
+        while vi < variants.len() {
+            let edns = variants[vi];
+            vi += 1;
+            let mut b = Builder::new(qi as u16, 0x0100);
+            b.question(&qname, q.qtype, *class);
+            if let Some(size) = edns {
+                b.rr(3, &MName::root(), mr::T_OPT, size, 0, &[]);
             }
-        };
-        let u = run(false, &mut ubuf)?;
-        let t = run(true, &mut tbuf)?;
-        // (1) size limit
-        ensure!(u.len() <= limit, "udp-limit-exceeded", "{what}: the UDP response has {} octets", u.len());
-        let du = match decode_message(&u) {
-            Ok(d) => d,
-            Err(e) => fail!("response-undecodable", "{what}: UDP response {} does not decode: {e:?}", hex(&u)),
-        };
-        let dt = match decode_message(&t) {
-            Ok(d) => d,
-            Err(e) => fail!("response-undecodable", "{what}: TCP response does not decode: {e:?}"),
-        };
-        // (2) TCP never sets TC
-        ensure!(!dt.header.tc, "tc-over-tcp", "{what}: the TCP response has TC set");
-        // (4) TC => no records besides OPT/TSIG
-        if du.header.tc {
-            ensure!(
-                du.answers.is_empty() && du.authority.is_empty() && plain_additional(&du).is_empty(),
-                "tc-with-records",
-                "{what}: the UDP response has TC set but carries {} answer, {} authority and {} additional records",
-                du.answers.len(),
-                du.authority.len(),
-                plain_additional(&du).len()
-            );
-        }
-        // (2b) over TCP an OPT record in the request must not shrink the response: apart from the
-        // OPT record itself it is the response to the same request without OPT (unless the extra
-        // 11 octets push it over 65535)
-        if q.edns.is_some() {
-            let mut b0 = Builder::new(qi as u16, 0x0100);
-            b0.question(&qname, q.qtype, *class);
-            let req0 = b0.buf;
-            let t0 = match server.handle(&req0, true, localhost(), &mut tbuf) {
-                Ok(Some(n)) => tbuf[..n].to_vec(),
-                Ok(None) => fail!("no-response", "{what}: no response over TCP without OPT"),
-                Err(p) => fail!(panic_signature(&p), "{what}: handle_message panicked: {p}"),
+            let req = b.buf;
+            let limit: usize = match edns {
+                None => 512,
+                Some(size) => size.clamp(512, payload) as usize,
             };
-            if let Ok(d0) = decode_message(&t0) {
-                if t0.len() + 11 <= 65535 {
-                    let sec = |v: &Vec<RrDecode>| multiset(&v.iter().collect::<Vec<_>>());
-                    ensure!(
-                        d0.header.rcode as u16 == dt.extended_rcode()
-                            && d0.header.aa == dt.header.aa
-                            && sec(&d0.answers) == sec(&dt.answers)
-                            && sec(&d0.authority) == sec(&dt.authority)
-                            && multiset(&plain_additional(&d0)) == multiset(&t_add_of(&dt)),
-                        "tcp-response-changed-by-edns",
-                        "{what}: over TCP the response to the request with OPT ({} octets, RCODE {}, {} answer records) differs from the response to the same request without OPT ({} octets, RCODE {}, {} answer records)",
-                        t.len(),
-                        dt.extended_rcode(),
-                        dt.answers.len(),
-                        t0.len(),
-                        d0.header.rcode,
-                        d0.answers.len()
-                    );
-                    st.class("tcp-with-and-without-opt-compared");
+            let what = format!("query {qname} type {} class {class} ({}; server payload size {payload}; UDP limit {limit})", q.qtype, match edns {
+                None => "no EDNS".to_string(),
+                Some(s) => format!("EDNS advertising {s}"),
+            });
+            let run = |tcp: bool, buf: &mut Vec<u8>| -> Result<Vec<u8>, Fail> {
+                match server.handle(&req, tcp, localhost(), buf) {
+                    Ok(Some(n)) => Ok(buf[..n].to_vec()),
+                    Ok(None) => Err(Fail::new("no-response", format!("{what}: no response over {}", if tcp { "TCP" } else { "UDP" }))),
+                    Err(p) => Err(Fail::new(panic_signature(&p), format!("{what}: handle_message panicked: {p}"))),
+                }
+            };
+            let u = run(false, &mut ubuf)?;
+            let t = match (&t_with_opt, edns) {
+                (Some(c), Some(_)) if vi > 1 => c.clone(),
+                _ => run(true, &mut tbuf)?,
+            };
+            if edns.is_some() && t_with_opt.is_none() {
+                t_with_opt = Some(t.clone());
+            }
+            // (1) size limit
+            ensure!(u.len() <= limit, "udp-limit-exceeded", "{what}: the UDP response has {} octets", u.len());
+            let du = match decode_message(&u) {
+                Ok(d) => d,
+                Err(e) => fail!("response-undecodable", "{what}: UDP response {} does not decode: {e:?}", hex(&u)),
+            };
+            let dt = match decode_message(&t) {
+                Ok(d) => d,
+                Err(e) => fail!("response-undecodable", "{what}: TCP response does not decode: {e:?}"),
+            };
+            // (2) TCP never sets TC
+            ensure!(!dt.header.tc, "tc-over-tcp", "{what}: the TCP response has TC set");
+            // (4) TC => no records besides OPT/TSIG
+            if du.header.tc {
+                ensure!(
+                    du.answers.is_empty() && du.authority.is_empty() && plain_additional(&du).is_empty(),
+                    "tc-with-records",
+                    "{what}: the UDP response has TC set but carries {} answer, {} authority and {} additional records",
+                    du.answers.len(),
+                    du.authority.len(),
+                    plain_additional(&du).len()
+                );
+            }
+            // (2b) over TCP an OPT record in the request must not shrink the response: apart from the
+            // OPT record itself it is the response to the same request without OPT (unless the extra
+            // 11 octets push it over 65535)
+            if edns.is_some() && vi == 1 {
+                let mut b0 = Builder::new(qi as u16, 0x0100);
+                b0.question(&qname, q.qtype, *class);
+                let req0 = b0.buf;
+                let t0 = match server.handle(&req0, true, localhost(), &mut tbuf) {
+                    Ok(Some(n)) => tbuf[..n].to_vec(),
+                    Ok(None) => fail!("no-response", "{what}: no response over TCP without OPT"),
+                    Err(p) => fail!(panic_signature(&p), "{what}: handle_message panicked: {p}"),
+                };
+                if let Ok(d0) = decode_message(&t0) {
+                    if t0.len() + 11 <= 65535 {
+                        let sec = |v: &Vec<RrDecode>| multiset(&v.iter().collect::<Vec<_>>());
+                        ensure!(
+                            d0.header.rcode as u16 == dt.extended_rcode()
+                                && d0.header.aa == dt.header.aa
+                                && sec(&d0.answers) == sec(&dt.answers)
+                                && sec(&d0.authority) == sec(&dt.authority)
+                                && multiset(&plain_additional(&d0)) == multiset(&t_add_of(&dt)),
+                            "tcp-response-changed-by-edns",
+                            "{what}: over TCP the response to the request with OPT ({} octets, RCODE {}, {} answer records) differs from the response to the same request without OPT ({} octets, RCODE {}, {} answer records)",
+                            t.len(),
+                            dt.extended_rcode(),
+                            dt.answers.len(),
+                            t0.len(),
+                            d0.header.rcode,
+                            d0.answers.len()
+                        );
+                        st.class("tcp-with-and-without-opt-compared");
+                    }
+                }
+            }
+            // the complete response could not be built even over TCP (> 65535 octets): nothing to compare with
+            if dt.extended_rcode() == 2 && dt.answers.is_empty() && dt.authority.is_empty() {
+                st.discard("tcp-response-is-servfail");
+                continue;
+            }
+            // (3) thresholds from the complete response
+            let referral_owner: Option<MName> = if !dt.authority.is_empty() && dt.authority.iter().all(|r| r.rtype == mr::T_NS) {
+                Some(dt.authority[0].owner.name.clone())
+            } else {
+                None
+            };
+            let t_add = plain_additional(&dt);
+            let mandatory_add: Vec<&RrDecode> = match &referral_owner {
+                Some(cut) => t_add.iter().filter(|r| r.owner.name.at_or_below(cut)).cloned().collect(),
+                None => Vec::new(),
+            };
+            let question_end = dt.questions.last().map_or(12, |q| q.end);
+            let mut p_end = question_end;
+            for r in dt.answers.iter().chain(dt.authority.iter()) {
+                p_end = p_end.max(r.end);
+            }
+            for r in &mandatory_add {
+                p_end = p_end.max(r.end);
+            }
+            let trailer = if dt.opt().is_some() { 11 } else { 0 };
+            let fits_mandatory = p_end + trailer <= limit;
+            let fits_all = t.len() <= limit;
+            let size_class = if fits_all {
+                "complete-response-fits"
+            } else if fits_mandatory {
+                "optional-records-dropped"
+            } else {
+                "truncated"
+            };
+            if let Some(cut) = &referral_owner {
+                if dt.authority.iter().any(|r| r.rdata_names.first().map_or(false, |(_, n, _)| n.name.eq_fold(cut))) {
+                    st.class(&format!("referral-whose-cut-is-its-own-name-server: {size_class}"));
+                }
+            }
+            if t.len() > 400 {
+                st.class(size_class);
+                st.nontrivial(&(&req, limit), || json!({"query": what, "tcp_len": t.len(), "udp_len": u.len(), "mandatory_end": p_end, "class": size_class}));
+            } else {
+                st.class("small-response");
+            }
+            if fits_all {
+                // the id and everything else is the same request: identical octets
+                ensure!(
+                    u == t,
+                    "udp-differs-although-complete-response-fits",
+                    "{what}: the complete (TCP) response has {} octets and fits, but the UDP response differs: UDP {} vs TCP {}",
+                    t.len(),
+                    hex(&u),
+                    hex(&t)
+                );
+            } else if fits_mandatory {
+                ensure!(
+                    !du.header.tc,
+                    "truncated-although-mandatory-part-fits",
+                    "{what}: answer, authority and in-bailiwick glue end at octet {p_end} (+{trailer} for OPT) which fits, but the UDP response has TC set (complete response: {} octets)",
+                    t.len()
+                );
+                ensure!(
+                    du.extended_rcode() == dt.extended_rcode() && du.header.aa == dt.header.aa,
+                    "rcode-aa-differ",
+                    "{what}: UDP RCODE/AA {}/{} vs TCP {}/{}",
+                    du.extended_rcode(),
+                    du.header.aa,
+                    dt.extended_rcode(),
+                    dt.header.aa
+                );
+                let sec = |v: &Vec<RrDecode>| multiset(&v.iter().collect::<Vec<_>>());
+                ensure!(sec(&du.answers) == sec(&dt.answers), "answer-differs", "{what}: UDP answer section differs from the complete response's");
+                ensure!(sec(&du.authority) == sec(&dt.authority), "authority-differs", "{what}: UDP authority section differs from the complete response's");
+                let u_add = multiset(&plain_additional(&du));
+                ensure!(
+                    is_subset(&u_add, &multiset(&t_add)),
+                    "additional-not-a-subset",
+                    "{what}: the UDP response has additional records that the complete response lacks"
+                );
+                ensure!(
+                    is_subset(&multiset(&mandatory_add), &u_add),
+                    "glue-dropped",
+                    "{what}: in-bailiwick glue for the delegation {} is missing from the UDP response although TC is clear ({} of {} mandatory records present)",
+                    referral_owner.as_ref().map(|n| n.to_text()).unwrap_or_default(),
+                    plain_additional(&du).iter().filter(|r| referral_owner.as_ref().map_or(false, |c| r.owner.name.at_or_below(c))).count(),
+                    mandatory_add.len()
+                );
+            } else {
+                ensure!(
+                    du.header.tc,
+                    "not-truncated-although-mandatory-part-does-not-fit",
+                    "{what}: answer, authority and in-bailiwick glue end at octet {p_end} (+{trailer} for OPT) of the complete response, beyond the limit, but the UDP response ({} octets) has TC clear",
+                    u.len()
+                );
+            }
+            if vi == 1 && qi % 3 == 0 {
+                // S: the complete response including its OPT record
+                let s_len = if dt.opt().is_some() { t.len() } else { t.len() + 11 };
+                let n_records = dt.answers.len() + dt.authority.len() + plain_additional(&dt).len();
+                for d in [-1i64, 0, (n_records as i64).clamp(1, 40)] {
+                    let lim = s_len as i64 + d;
+                    if lim >= 513 && lim <= payload as i64 && lim <= 65535 && !variants.contains(&Some(lim as u16)) {
+                        variants.push(Some(lim as u16));
+                    }
+                }
+                if variants.len() > 1 {
+                    st.class("limits-placed-around-the-size-of-the-complete-response");
                 }
             }
         }
-        // the complete response could not be built even over TCP (> 65535 octets): nothing to compare with
-        if dt.extended_rcode() == 2 && dt.answers.is_empty() && dt.authority.is_empty() {
-            st.discard("tcp-response-is-servfail");
-            continue;
-        }
-        // (3) thresholds from the complete response
-        let referral_owner: Option<MName> = if !dt.authority.is_empty() && dt.authority.iter().all(|r| r.rtype == mr::T_NS) {
-            Some(dt.authority[0].owner.name.clone())
-        } else {
-            None
-        };
-        let t_add = plain_additional(&dt);
-        let mandatory_add: Vec<&RrDecode> = match &referral_owner {
-            Some(cut) => t_add.iter().filter(|r| r.owner.name.at_or_below(cut)).cloned().collect(),
-            None => Vec::new(),
-        };
-        let question_end = dt.questions.last().map_or(12, |q| q.end);
-        let mut p_end = question_end;
-        for r in dt.answers.iter().chain(dt.authority.iter()) {
-            p_end = p_end.max(r.end);
-        }
-        for r in &mandatory_add {
-            p_end = p_end.max(r.end);
-        }
-        let trailer = if dt.opt().is_some() { 11 } else { 0 };
-        let fits_mandatory = p_end + trailer <= limit;
-        let fits_all = t.len() <= limit;
-        let size_class = if fits_all {
-            "complete-response-fits"
-        } else if fits_mandatory {
-            "optional-records-dropped"
-        } else {
-            "truncated"
-        };
-        if let Some(cut) = &referral_owner {
-            if dt.authority.iter().any(|r| r.rdata_names.first().map_or(false, |(_, n, _)| n.name.eq_fold(cut))) {
-                st.class(&format!("referral-whose-cut-is-its-own-name-server: {size_class}"));
-            }
-        }
-        if t.len() > 400 {
-            st.class(size_class);
-            st.nontrivial(&(&req, limit), || json!({"query": what, "tcp_len": t.len(), "udp_len": u.len(), "mandatory_end": p_end, "class": size_class}));
-        } else {
-            st.class("small-response");
-        }
-        if fits_all {
-            // the id and everything else is the same request: identical octets
-            ensure!(
-                u == t,
-                "udp-differs-although-complete-response-fits",
-                "{what}: the complete (TCP) response has {} octets and fits, but the UDP response differs: UDP {} vs TCP {}",
-                t.len(),
-                hex(&u),
-                hex(&t)
-            );
-        } else if fits_mandatory {
-            ensure!(
-                !du.header.tc,
-                "truncated-although-mandatory-part-fits",
-                "{what}: answer, authority and in-bailiwick glue end at octet {p_end} (+{trailer} for OPT) which fits, but the UDP response has TC set (complete response: {} octets)",
-                t.len()
-            );
-            ensure!(
-                du.extended_rcode() == dt.extended_rcode() && du.header.aa == dt.header.aa,
-                "rcode-aa-differ",
-                "{what}: UDP RCODE/AA {}/{} vs TCP {}/{}",
-                du.extended_rcode(),
-                du.header.aa,
-                dt.extended_rcode(),
-                dt.header.aa
-            );
-            let sec = |v: &Vec<RrDecode>| multiset(&v.iter().collect::<Vec<_>>());
-            ensure!(sec(&du.answers) == sec(&dt.answers), "answer-differs", "{what}: UDP answer section differs from the complete response's");
-            ensure!(sec(&du.authority) == sec(&dt.authority), "authority-differs", "{what}: UDP authority section differs from the complete response's");
-            let u_add = multiset(&plain_additional(&du));
-            ensure!(
-                is_subset(&u_add, &multiset(&t_add)),
-                "additional-not-a-subset",
-                "{what}: the UDP response has additional records that the complete response lacks"
-            );
-            ensure!(
-                is_subset(&multiset(&mandatory_add), &u_add),
-                "glue-dropped",
-                "{what}: in-bailiwick glue for the delegation {} is missing from the UDP response although TC is clear ({} of {} mandatory records present)",
-                referral_owner.as_ref().map(|n| n.to_text()).unwrap_or_default(),
-                plain_additional(&du).iter().filter(|r| referral_owner.as_ref().map_or(false, |c| r.owner.name.at_or_below(c))).count(),
-                mandatory_add.len()
-            );
-        } else {
-            ensure!(
-                du.header.tc,
-                "not-truncated-although-mandatory-part-does-not-fit",
-                "{what}: answer, authority and in-bailiwick glue end at octet {p_end} (+{trailer} for OPT) of the complete response, beyond the limit, but the UDP response ({} octets) has TC clear",
-                u.len()
-            );
-        }
-        let _: &MessageDecode = &du;
     }
     Ok(())
 }
